@@ -385,6 +385,14 @@ func c13Cases(thorough bool) []c13Case {
 			cs = append(cs, c13Case{Name: "L4 source family", TMS: rd, IDs: []int{5, 8}, Page: 1 + (pi+mi)%2, Keep: (pi+mi)%2 == 0, Path: "t.gpkg", Src: src})
 		}
 	}
+	// L6: another tile matrix set (the geometry is snapped on whatever grid is named, the SRS is only copied)
+	for _, tmsName := range []string{"WebMercatorQuad", "WorldMercatorWGS84Quad"} {
+		for _, ids := range [][]int{{12}, {10, 12}} {
+			for _, keep := range []bool{false, true} {
+				cs = append(cs, c13Case{Name: "L6 other tile matrix sets", TMS: tmsName, IDs: ids, Page: 2, Keep: keep, Reverse: keep, Path: "w.gpkg", Src: s1})
+			}
+		}
+	}
 	if thorough {
 		// L5: page sizes x three-table sources with three rows each
 		for _, page := range []int{1, 2, 3, 4, 1000} {
@@ -470,6 +478,6 @@ func runC13() {
 		"states": tot.States, "transitions": tot.States, "traces_validated_against_impl": 0, "samples": tot.Samples,
 		"evaluations": tot.States, "distinct_nontrivial": tot.Nontrivial, "exhaustive": tot.Exhaustive && int(tot.States) == len(cases),
 		"runs_per_sub_lattice": tot.PerLattice,
-		"rule":                 "state = one invocation of the real texel binary; the lattice is the union of fully enumerated sub-lattices: L1 id lists (single, descending, three, duplicate) x keep x reverse x page size {1,2,default}; L2 all 8 flag combinations (command line and environment) on a source with an outside-grid feature and on an in-grid source; L3 5 target path shapes x {fresh, overwrite, pre-existing + overwrite} x ids; L4 every sequence of <= 2 polygon kinds x <= 1 (thorough 2) multipolygon kinds with line table; thorough L5 page sizes x four tables; each run is compared file by file, table by table, row by row with the reference; non-trivial = sources with at least one (multi)polygon",
+		"rule":                 "state = one invocation of the real texel binary; the lattice is the union of fully enumerated sub-lattices: L1 id lists (single, descending, three, duplicate) x keep x reverse x page size {1,2,default}; L2 all 8 flag combinations (command line and environment) on a source with an outside-grid feature and on an in-grid source; L3 5 target path shapes x {fresh, overwrite, pre-existing + overwrite} x ids; L4 every sequence of <= 2 polygon kinds x <= 1 (thorough 2) multipolygon kinds with line table; L6 WebMercatorQuad and WorldMercatorWGS84Quad x two id lists x keep/reverse; thorough L5 page sizes x four tables; each run is compared file by file, table by table, row by row with the reference; non-trivial = sources with at least one (multi)polygon",
 	})
 }
